@@ -200,7 +200,13 @@ func (s *Sess) New(chunks [][]byte, fin string) NewRes {
 				res.Panic = fmt.Sprint(r)
 			}
 		}()
-		c, err := ech.NewConn(context.Background(), s.Fake, ech.WithKeys(s.Keys))
+		// WithKeys appends: the key list may be handed over in one option or in several
+		opts := []ech.Option{ech.WithKeys(s.Keys)}
+		if n := len(s.Keys); n >= 2 && (len(chunks)+n)%2 == 0 {
+			cut := 1 + (len(s.Keys[0].Config)+len(chunks))%(n-1)
+			opts = []ech.Option{ech.WithKeys(s.Keys[:cut]), ech.WithKeys(s.Keys[cut:])}
+		}
+		c, err := ech.NewConn(context.Background(), s.Fake, opts...)
 		s.Conn = c
 		res.Err = ErrClass(err)
 		res.Accepted = c.ECHAccepted()
